@@ -40,6 +40,9 @@ type TxSpec struct {
 	Signer *Account
 	Msgs   []sdk.Msg
 	Tag    string // free-form label used by monitors
+	Fee    sdk.Coins
+	// OnResult is called with the outcome once the block is committed
+	OnResult func(o TxOutcome) `json:"-"`
 	// ForgeAccNum: sign with Signer's key but claim the named account as signer is impossible in the SDK
 	// (signers are derived from msgs); forged attempts are expressed by Msgs naming somebody else.
 }
@@ -93,6 +96,7 @@ type Chain struct {
 	hooks       []func(c *Chain, req *abci.RequestFinalizeBlock, res *abci.ResponseFinalizeBlock, txs []TxOutcome)
 	accountKeep authkeeper.AccountKeeper
 	relayer     *Account
+	lastTime    time.Time
 	user        *Account
 
 	// recorder for the determinism replica
@@ -111,7 +115,7 @@ func (c *Chain) OnBlock(f func(c *Chain, req *abci.RequestFinalizeBlock, res *ab
 // BuildTx signs and encodes a tx; the signer's local sequence is advanced.
 func (c *Chain) BuildTx(spec TxSpec) ([]byte, error) {
 	tx, err := simtestutil.GenSignedMockTx(
-		c.rnd, c.TC.TxConfig, spec.Msgs, sdk.Coins{}, 50_000_000, c.ID,
+		c.rnd, c.TC.TxConfig, spec.Msgs, spec.Fee, 50_000_000, c.ID,
 		[]uint64{spec.Signer.AccNum}, []uint64{spec.Signer.Seq}, spec.Signer.Priv,
 	)
 	if err != nil {
@@ -131,6 +135,11 @@ func (c *Chain) ProduceBlock(specs []TxSpec, opts *BlockOpts) []TxOutcome {
 		return nil
 	}
 	tc := c.TC
+	// light clients need strictly increasing header times on a chain
+	if !c.lastTime.IsZero() && !c.W.Now.After(c.lastTime) {
+		c.W.Now = c.lastTime.Add(time.Nanosecond)
+	}
+	c.lastTime = c.W.Now
 	tc.ProposedHeader.Time = c.W.Now.UTC()
 
 	var txs [][]byte
@@ -198,6 +207,11 @@ func (c *Chain) ProduceBlock(specs []TxSpec, opts *BlockOpts) []TxOutcome {
 		}
 	}
 	c.LastReq, c.LastRes, c.LastTxs = req, res, outs
+	for _, o := range outs {
+		if o.Spec.OnResult != nil {
+			o.Spec.OnResult(o)
+		}
+	}
 	for _, h := range c.hooks {
 		h(c, req, res, outs)
 	}
